@@ -208,6 +208,70 @@ def m_len(interp, args, info):
     return t.end - t.start
 
 
+def _split_pieces(interp, t, pred):
+    """sub-slices of a byte text between the bytes for which `pred(&byte)` holds"""
+    b = t.bytes()
+    cuts = []
+    for i, x in enumerate(b):
+        r = interp.call_value(pred, [Ptr(Cell(x))])
+        if not isinstance(r, bool):
+            raise Inconclusive("split predicate returned %r" % (r,), interp.where())
+        if r:
+            cuts.append(i)
+    pieces, pos = [], 0
+    for i in cuts:
+        pieces.append(TextV(t.base, t.start + pos, t.start + i, t.kind))
+        pos = i + 1
+    pieces.append(TextV(t.base, t.start + pos, t.start + len(b), t.kind))
+    return pieces
+
+
+def m_split(interp, args, info):
+    t = _text(interp, args[0])
+    if t is None:
+        return NotImplemented
+    return IterV("vec", ListV(_split_pieces(interp, t, args[1])))
+
+
+def m_rsplit(interp, args, info):
+    t = _text(interp, args[0])
+    if t is None:
+        return NotImplemented
+    return IterV("vec", ListV(list(reversed(_split_pieces(interp, t, args[1])))))
+
+
+def _find(interp, args, info, reverse):
+    t = _text(interp, args[0])
+    if t is None:
+        return NotImplemented
+    pat = args[1]
+    from .interp import StrV
+    if isinstance(pat, int) and not isinstance(pat, bool):
+        needle = chr(pat).encode("utf-8")
+    elif isinstance(pat, StrV):
+        needle = pat.s.encode("utf-8")
+    else:
+        raise Inconclusive("find with pattern %r" % (pat,), interp.where())
+    b = t.bytes()
+    i = b.rfind(needle) if reverse else b.find(needle)
+    return NONE if i < 0 else some(i)
+
+
+def m_find(interp, args, info):
+    return _find(interp, args, info, False)
+
+
+def m_rfind(interp, args, info):
+    return _find(interp, args, info, True)
+
+
+def m_is_empty(interp, args, info):
+    t = _text(interp, args[0])
+    if t is None:
+        return NotImplemented
+    return t.end == t.start
+
+
 def m_deref(interp, args, info):
     t = _text(interp, args[0])
     if t is None:
@@ -237,6 +301,14 @@ def install():
     _wrap("core::str::<impl str>::trim_end", m_trim_end)
     _wrap("core::str::<impl str>::as_ptr", m_as_ptr)
     _wrap("core::str::<impl str>::len", m_len)
+    _wrap("core::slice::<impl [T]>::len", m_len)
+    _wrap("core::str::<impl str>::find", m_find)
+    _wrap("core::str::<impl str>::rfind", m_rfind)
+    _wrap("core::slice::<impl [T]>::split", m_split)
+    _wrap("core::slice::<impl [T]>::rsplit", m_rsplit)
+    _wrap("std::string::String::len", m_len)
+    _wrap("core::slice::<impl [T]>::is_empty", m_is_empty)
+    _wrap("core::str::<impl str>::is_empty", m_is_empty)
     _wrap("<std::string::String as std::ops::Deref>::deref", m_deref)
 
 
